@@ -9,7 +9,7 @@ Exit 0: property held on everything explored (known findings are printed as KNOW
 Exit 1: at least one `VIOLATION property=<ID> replay=<path>` line was printed.
 Exit 2: engine error (build failure, replay that does not reproduce, ...).
 """
-import argparse, glob, hashlib, importlib.util, json, mmap, os, re, shutil, struct, subprocess, sys, time
+import argparse, glob, hashlib, importlib.util, json, os, re, shutil, struct, subprocess, sys, tempfile, time
 
 ROOT = os.path.dirname(os.path.abspath(__file__))
 REPO = os.environ.get("VERIF_REPO", "/repo")
@@ -79,16 +79,19 @@ def run_parallel(cmds):
     while pending or running:
         while pending and len(running) < NCPU:
             argv, label = pending.pop(0)
-            running.append((subprocess.Popen(argv, stdout=subprocess.PIPE, stderr=subprocess.STDOUT), label, argv))
+            lf = tempfile.TemporaryFile()
+            running.append((subprocess.Popen(argv, stdout=lf, stderr=subprocess.STDOUT), label, argv, lf))
         for item in list(running):
-            p, label, argv = item
+            p, label, argv, lf = item
             if p.poll() is not None:
-                out = p.stdout.read().decode(errors="replace")
+                lf.seek(0)
+                out = lf.read().decode(errors="replace")
+                lf.close()
                 running.remove(item)
                 if p.returncode != 0:
-                    for q, _, _ in running:
+                    for q, _, _, _ in running:
                         q.kill()
-                    raise RuntimeError("build failed: %s\n%s\n%s" % (label, " ".join(argv), out[-6000:]))
+                    raise RuntimeError("build failed: %s\n%s\n%s" % (label, " ".join(argv), out[:6000]))
         time.sleep(0.02)
 
 
@@ -441,7 +444,16 @@ def main():
             v["confirmed"] = "python-oracle"
             continue
         stall = next((j.stall for j in alljobs if j.section == v["section"]), 60)
-        rc, out = replay_case(exes[v["variant"]], v["section"], tier, v["idx"], env, outdir, max(120, stall * 10))
+        supportive = v["variant"] != "main" and cfg["variants"][v["variant"]].get("supportive")
+        for _attempt in range(10 if supportive else 1):
+            rc, out = replay_case(exes[v["variant"]], v["section"], tier, v["idx"], env, outdir, max(120, stall * 10))
+            if rc != 0:
+                break
+        if supportive and rc == 0:
+            # free-running (schedule-sampling) pass: a finding that does not reproduce is dropped with a note
+            notes.append("supportive variant %s: finding %s at case %d did not reproduce in 10 replays; not reported" % (v["variant"], key, v["idx"]))
+            v["confirmed"] = "no"
+            continue
         m = re.search(r"^CASE \d+: (.*)$", out, re.M)
         if v["kind"] == "crash":
             if rc == 0:
